@@ -165,10 +165,22 @@ def parse_module_text(source_code, file_name):
         debug_info.tokens = tokens
         parse_result = parser.parse_module(tokens)
         if parse_result.error:
+            parse_error = parse_result.error
+            if not isinstance(parse_error.token, parser_types.Token):
+                # The error is at the end of the input, which has no token of its
+                # own: point just past the last token.
+                end = tokens[-1].source_location.end
+                parse_error = parse_error._replace(
+                    token=parser_types.Token(
+                        parse_error.token.symbol,
+                        "",
+                        parser_types.SourceLocation(end, end),
+                    )
+                )
             return _IrDebugInfo(
                 None,
                 debug_info,
-                [error.make_error_from_parse_error(file_name, parse_result.error)],
+                [error.make_error_from_parse_error(file_name, parse_error)],
             )
         debug_info.parse_tree = parse_result.parse_tree
         used_productions = set()
